@@ -54,6 +54,11 @@ theorem abandoned_only_on_send_path :
       p.1.fn = "sender.SendPackets" ∨ p.1.fn = "rateLimitReadWriter.WritePacketData" ∨
       p.1.fn = "cacheReqGenerator.GenerateRequests" := by decide
 
+/-- the target list on stdin is waited for in exactly one place, a `Read` (called by the generator goroutine), never
+    while the engine is being started -/
+theorem stdin_wait_only_in_read :
+    ∀ p ∈ SxVerif.Blocking.accounted, p.2 = .inputRead → p.1.fn = "stdinReader.Read" := by decide
+
 /-- (T) the side conditions of the generic theorems, decided on the regenerated stage descriptors:
     `SingleCloser`, `CloseAfterSenders`, `GuardedOnReturnPath`, the guards the transition system
     assumes (which ctx ends which blocking operation), one `Write` per received result -/
